@@ -163,6 +163,6 @@ def run(cx):
         b = cx.fn(fn)
         if b:
             for pn in ps:
-                i = b.param_index(pn)
+                i = cx.pidx(b, pn)
                 ok, how = E.param_influences(b, i) if i else (False, 'missing')
                 cx.ob('PARAMUSE', f'{fn.split("::")[-1]}:{pn}', ok, f'{fn.split("::")[-1]} depends on `{pn}` ({how})', where=b.file)
